@@ -31,6 +31,19 @@ def step (line : String) : String :=
   | ["strip", f] => match bytesOfHex f with
     | some file => showBytes (strip file)
     | none => "bad-op"
+  -- the destination's previous content is irrelevant (O_TRUNC / os.WriteFile); in place = same answer
+  | ["stripto", f, _] => match bytesOfHex f with
+    | some file => showBytes (strip file)
+    | none => "bad-op"
+  | ["stripin", f] => match bytesOfHex f with
+    | some file => showBytes (strip file)
+    | none => "bad-op"
+  | ["appendto", s, c, _] => match bytesOfHex s, bytesOfHex c with
+    | some src, some cfg => showBytes (appendConfig src cfg)
+    | _, _ => "bad-op"
+  | ["appendin", s, c] => match bytesOfHex s, bytesOfHex c with
+    | some src, some cfg => showBytes (appendConfig src cfg)
+    | _, _ => "bad-op"
   | ["has", f] => match bytesOfHex f with
     | some file => s!"has {hasEmbedded file}"
     | none => "bad-op"
@@ -39,12 +52,44 @@ def step (line : String) : String :=
     | _, _ => "bad-op"
   | _ => "bad-op"
 
-/-- Executable statement of C36 over one observed implementation answer:
-    no panic ever; a `read`/`strip` answer, when `ok`, lies inside the file. -/
+/-- Executable statement of C36 over one observed implementation answer.
+    * no crash ever; a reported size is a valid prefix length;
+    * `append src cfg` answered `ok out`: reading `out` back must give `cfg` (non-empty `cfg`) and
+      stripping it must give `src` (the readers' behaviour on every file is what T-diff compares);
+    * `read`/`strip` of a file whose trailer is well-formed (magic, length fits): the answer must be
+      exactly the embedded bytes / the prefix before them. -/
 def spec (line : String) (implOut : String) : String :=
-  if implOut.startsWith "panic" then "fail crashed"
+  if implOut.startsWith "panic" || implOut.startsWith "crash" then "fail crashed"
   else match tokens line, tokens implOut with
-    | ["size", _], ["size", n] => if n.startsWith "-" then "fail negative-size" else "ok"
+    | "size" :: _, ["size", n] => if n.startsWith "-" then "fail negative-size" else "ok"
+    | op :: s :: c :: _, ["ok", o] =>
+      if op == "append" || op == "appendto" || op == "appendin" then
+        match bytesOfHex s, bytesOfHex c, bytesOfHex o with
+        | some src, some cfg, some out =>
+          if !cfg.isEmpty && readEmbedded out != .ok cfg then "fail roundtrip-read"
+          else if strip out != .ok src then "fail roundtrip-strip"
+          else "ok"
+        | _, _, _ => "bad-op"
+      else if op == "stripto" then
+        match bytesOfHex s with
+        | some file => match strip file with
+          | .ok want => if some want == bytesOfHex o then "ok" else "fail strip-wrong-bytes"
+          | _ => "fail strip-accepted-malformed"
+        | none => "bad-op"
+      else "ok"
+    | [op, f], ["ok", o] =>
+      match bytesOfHex f with
+      | some file =>
+        if op == "read" then
+          match readEmbedded file with
+          | .ok want => if some want == bytesOfHex o then "ok" else "fail read-wrong-bytes"
+          | _ => "fail read-accepted-malformed"
+        else if op == "strip" || op == "stripin" then
+          match strip file with
+          | .ok want => if some want == bytesOfHex o then "ok" else "fail strip-wrong-bytes"
+          | _ => "fail strip-accepted-malformed"
+        else "ok"
+      | none => "bad-op"
     | _, _ => "ok"
 
 def main (args : List String) : IO Unit :=
